@@ -234,6 +234,11 @@ func TestSim(t *testing.T) {
 		rng := NewRNG(rs)
 		p := ps[run%len(ps)]
 		sc, ex := p.Gen(rng.Derive(0), rs, *fTier)
+		if *fOut != "" {
+			// a panic in a goroutine of the system under test kills the process: leave a note saying
+			// which (deterministic) run was in progress, so that the driver can report it with a replay
+			_ = os.WriteFile(*fOut+".inprogress", []byte(fmt.Sprintf(`{"version":1,"mode":"rerun","property":%q,"seed":%d,"run":%d,"clause":"process-crash"}`, *fProperty, *fSeed, run)), 0o644)
+		}
 		res := RunScenario(t, sc, nil, ex)
 		out.Runs++
 		out.Profiles[p.Name]++
@@ -345,6 +350,7 @@ func TestSim(t *testing.T) {
 	sort.Strings(out.Nontrivial)
 	out.WallS = time.Since(start).Seconds()
 	if *fOut != "" {
+		_ = os.Remove(*fOut + ".inprogress")
 		b, _ := json.Marshal(out)
 		if err := os.WriteFile(*fOut, b, 0o644); err != nil {
 			t.Fatal(err)
@@ -370,6 +376,24 @@ func replayFile(t *testing.T) {
 	var rf ReplayFile
 	if err := json.Unmarshal(b, &rf); err != nil {
 		t.Fatal(err)
+	}
+	var mode struct {
+		Mode string `json:"mode"`
+		Run  int    `json:"run"`
+	}
+	_ = json.Unmarshal(b, &mode)
+	if mode.Mode == "rerun" {
+		// exploration is deterministic: run index + seed reproduce the run (a process crash kills us here)
+		rs := RunSeed(rf.Seed, uint64(mode.Run))
+		ps := profiles[rf.Property]
+		p := ps[mode.Run%len(ps)]
+		sc, ex := p.Gen(NewRNG(rs).Derive(0), rs, "quick")
+		res := RunScenario(t, sc, nil, ex)
+		for _, l := range res.Log {
+			fmt.Println(l)
+		}
+		fmt.Printf("REPLAY-NO-VIOLATION (the run completed without crashing the process; violations: %v)\n", res.Violations)
+		os.Exit(3)
 	}
 	res := RunScenario(t, rf.Scenario, &rf.Plan, nil)
 	for _, l := range res.Log {
